@@ -63,7 +63,7 @@ Proof. exact sm_patch_inv. Qed.
 Print Assumptions C07_ids_unique_after_sm_patch.
 
 Theorem C07_ids_unique_after_namespace :
-  forall ns m m', ns <> ""%string -> no_empties m -> ns_all ns m = Ok m' -> Inv m'.
+  forall ns unset_only m m', ns <> ""%string -> no_empties m -> ns_all ns unset_only m = Ok m' -> Inv m'.
 Proof. exact ns_all_unique. Qed.
 Print Assumptions C07_ids_unique_after_namespace.
 
